@@ -136,8 +136,6 @@ package hook
 //@ ghost nProcess int
 //@ ghost lastExitErr error
 //@ ghost nOutputsRead int
-//@ ghost lastRefreshIn []bctx.BindingContext
-//@ ghost lastRefreshOut []bctx.BindingContext
 
 //@ trusted func (*Hook).prepareBindingContextJsonFile
 //@   modifies fsExists, ctxFileContent
@@ -216,7 +214,7 @@ package hook
 //@   prop C12, C18
 //@   requires [rate-limit-token] lastWaitHook == h && lastWaitErr == nil && h != nil
 //@   requires h.HookController != nil && h.Config != nil && (h.Config.Version == "v0" || h.Config.Version == "v1") && nProcess >= 0 && !fsExists[""]
-//@   modifies bctx.lastConvIn, bctx.lastConvVersion, bctx.lastConvOut, lastRefreshIn, lastRefreshOut, controller.snapCount, controller.snapOf
+//@   modifies bctx.lastConvIn, bctx.lastConvVersion, bctx.lastConvOut, controller.lastRefreshIn, controller.lastRefreshOut, controller.snapCount, controller.snapOf
 //@   modifies nRun, ranContexts, lastWaitHook, lastHookResult, lastHookErr, fsExists, ctxFileContent, nProcess, lastExitErr, nOutputsRead
 //@   ghostset nRun := nRun + 1
 //@   ghostset ranContexts := context
@@ -228,5 +226,5 @@ package hook
 //@   ensures [non-zero-exit-fails] nProcess == old(nProcess) + 1 && lastExitErr != nil ==> result1 != nil && nOutputsRead == old(nOutputsRead)
 //@   ensures [no-process-fails]  nProcess == old(nProcess) ==> result1 != nil && nOutputsRead == old(nOutputsRead)
 //@   ensures [outputs-all-read]  result1 == nil ==> nProcess == old(nProcess) + 1 && lastExitErr == nil && nOutputsRead == old(nOutputsRead) + 4
-//@   ensures [context-file]      nProcess == old(nProcess) + 1 ==> ctxFileContent == bctx.lastConvOut && bctx.lastConvIn == lastRefreshOut && bctx.lastConvVersion == h.Config.Version && lastRefreshIn == context
+//@   ensures [context-file]      nProcess == old(nProcess) + 1 ==> ctxFileContent == bctx.lastConvOut && bctx.lastConvIn == controller.lastRefreshOut && bctx.lastConvVersion == h.Config.Version && controller.lastRefreshIn == context
 //@   ensures [temp-files-gone]   app.DebugKeepTmpFilesVar != "yes" ==> forall(p, string, fsExists[p] == old(fsExists[p]))
